@@ -156,7 +156,7 @@ def generate(rng, tier):
         for sch in ('flat', 'nested', 'wide'):
             for io in ('path', 'fileobj', 'open_obj'):
                 cases.append(mk(rng, rng.choice([6, 9, 21, 100]), rng.choice([2, 3, 7]), comp=comp, schema=sch, io=io))
-    n_rand = 150 if tier == 'quick' else 2500
+    n_rand = 150 if tier == "quick" else 1800
     for _ in range(n_rand):
         n = rng.choice(NS + [rng.randrange(1, 2001)])
         kmax = 400 if tier == 'quick' else 5000
